@@ -127,6 +127,10 @@ def h_site(cx, site, basic, T, concrete_caps=False):
     for j in range(n):
         for t in range(T):
             M[j, t] = X[j][t]
+    # ---- history: an earlier, unrelated feasibility query on the same network object with loose tolerances (e.g. a scheduler probing
+    # the site); what it leaves in the object must not weaken the queries that are judged
+    net.is_feasible(np.zeros((n, 1)), violation_tolerance=5.0, relative_tolerance=0.25)
+    net.is_feasible(np.zeros((n, 1)), linear=True, violation_tolerance=5.0, relative_tolerance=0.25)
     # ---- the network's documented "more conservative" linear mode must respect the ratings as well: there acceptance is a
     # conjunction of linear inequalities (|A| x <= L + tol), added to the solver exactly as the real code computed it
     acc_lin = net.is_feasible(M, linear=True)
